@@ -1,8 +1,8 @@
 """C05 — dimensional analysis is sound: incompatible quantities never combine.
 Proof: coq/Properties/C05.v (exponent bookkeeping of mul/div/pow, equal
 dimensions for add/sub/convert, unitless requirement, soundness of whole
-expression trees against the physics typing HasDim; one clause refuted with a
-witness: reduce_hashmap overwrites when temperature bases are mixed).
+expression trees against the physics typing HasDim, at full strength since fend
+commit 1210896; the refutation of the old reduce_hashmap is kept as documentation).
 Tie: random unit-expression trees (depth <= 5) over the whole unit table:
 fend_core::evaluate (numeric result vs `incompatible` error, base units as
 printed by a failed conversion to the fresh base unit 'zz', exact value),
@@ -18,7 +18,7 @@ import c04 as C4
 
 TRUSTED_BASE = [
     'Coq 8.16.1 kernel + vm_compute (C05_name_dimensions over the regenerated table; refutation witness)',
-    'tools/gen_tables.py + /repo/core/src/verif_hooks/units.rs (base-unit decomposition and scale of every name as the tree\'s own to_hashmap_and_scale computes them)',
+    'tools/gen_tables.py + ' + vlib.REPO + '/core/src/verif_hooks/units.rs (base-unit decomposition and scale of every name as the tree\'s own to_hashmap_and_scale computes them)',
     'hand-written model coq/Units/Algebra.v + Units/Dim.v (meval) tied to core/src/num/unit.rs by the differential run only',
     'python dimension/value calculus in gen/c05.py (the physics side: exponents add under * and /, scale under ^, must agree under + - to); parser of fend\'s base-unit error text',
     'extraction ExtrOcamlBasic -> OCaml, modelrun/driver.ml, cross-checked against vm_compute on a sample',
@@ -344,6 +344,7 @@ def classify_error(msg):
 def check(c):
     try:
         _check(c)
+        U.regression_witnesses(c)
     finally:
         c.repr_drift += U.DRIFT['pi_approximation_flagged_exact']
         if U.DRIFT['pi_approximation_flagged_exact']:
